@@ -62,7 +62,7 @@ REVIEWED = [
     (r'^table::next_bucket_index$', r'^overflow:(Sub\((start_index, curr_index|curr_index, start_index)\)|Add\(SubWithOverflow\(start_index, curr_index\), 1\))$', 'inside the Ordering::Less / Greater arm of curr_index.cmp(start_index); indices < 160'),
     (r'^storage::AnnounceStorage::remove_expired_items$', r'^<T, A>::drain\(self\.expires, Range\{0, Iterator::count\(Iterator::take_while', '0..n with n = count of a take_while over the same vector (C07 expiry rule)'),
     (r'^transaction::generate_(aids|mids)$', r'^bounds\(index=Iterator>::next', 'enumerate() over a range of PREALLOC_LEN values into an array of PREALLOC_LEN'),
-    (r'^transaction::generate_(aids|mids)$', r'^overflow:Add\((next_alloc|phi\(0\|next_alloc\)), transaction::(ACTION|MESSAGE)_ID_PREALLOC_LEN\)$', 'next_alloc <= MAX_*_ID (2^40 / 2^24) because the block length divides the id space (C19)'),
+    (r'^transaction::(generate_(aids|mids)|[AM]IDGenerator::(generate|refill|new))$', r'^overflow:Add\(((….|self\.)?next_alloc|phi\(0\|(….|self\.)?next_alloc\)), (transaction::(ACTION|MESSAGE)_ID_PREALLOC_LEN|2048|const)\)$', 'next_alloc <= MAX_*_ID (2^40 / 2^24) because the block length divides the id space (C19)'),
     # unwraps with invariants
     (r'^handler::DhtHandler::run_once::\{closure#0\}$', r'^<T>::unwrap\(Future>::poll\(', 'timer.next() under the branch precondition !timer.is_empty(): the stream yields None only when it is empty'),
     (r'^action::lookup::TableLookup::recv_finished::\{closure#0\}$', r'^<T>::unwrap\(<K, V, S, A>::get\(param\.self\.announce_tokens\)\)$', 'the loop is filtered by announce_tokens.contains_key(node) (C03 announce rule)'),
@@ -230,7 +230,8 @@ def rule_select_premises(ctx, res):
 def rule_alloc(ctx, res):
     rx = re.compile(r'with_capacity|vec::from_elem|::reserve$|reserve_exact$|::resize$|::repeat$')
     okp = [r'^\d+$', r'^<impl \[T\]>::len\(', r'^MulWithOverflow\(<impl \[T\]>::len\(nodes\), AddWithOverflow\(info_hash::NODE_ID_LEN, const\)\)',
-           r'^<T>::unwrap_or\(SeqAccess::size_hint\(seq\)\)$', r'^0$']
+           r'^<T>::unwrap_or\(SeqAccess::size_hint\(seq\)\)$', r'^0$',
+           r'^AddWithOverflow\(<impl \[T\]>::len\([^()]*\), \d{1,4}\)$']   # an existing length plus a small constant
     n = 0
     for b in ctx.f.body_list:
         if b.kind == 'stolen':
